@@ -25,6 +25,7 @@ import numpy as np
 import sympy as sp
 
 from ..core import norm, calls_in, AnalysisError
+from .. import lints
 from ..symx import SymEval, SymObj, PyStub, Path, Opaque, WouldRaise, ModelError, module_aliases, symarray, is_zero, equal, arr, is_arr
 
 GS = 'atomman/defect/GammaSurface.py'
@@ -519,6 +520,12 @@ def arctan(ctx):
     ctx.ob('ARCTAN', ADR + '::pn_arctan_disregistry', 'the normalised profile starts at exactly zero and ends with the length of the Burgers vector', bool(ok), node=ctx.fn(ADR, 'pn_arctan_disregistry'), key='normalised')
 
 
+def grids(ctx):
+    """the point count of a uniform grid requested through (xmax, xstep) is admitted by a tolerant test and made an int by rounding, in both profile functions"""
+    lints.tolerant_integer(ctx, 'GRID', ADR, 'pn_arctan_disregistry', floor=1)
+    lints.tolerant_integer(ctx, 'GRID', ADD, 'pn_arctan_disldensity', floor=1)
+
+
 def api(ctx):
     from .. import apicompat
     for rel in (GS, PN):
@@ -531,4 +538,4 @@ def run(ctx):
                        'fit() is evaluated on model sample grids and the interpolation nodes compared with the periodic tiling; E_gsf routing, period reduction and edge blending are evaluated with a symbolic interpolant; '
                        'every Peierls-Nabarro energy term is evaluated on a symbolic five-point profile and compared with its documented formula; the optimiser wiring of solve() is evaluated with a recording minimiser; '
                        'the arctangent pair is differentiated by the CAS. Not decided: interpolation accuracy, energy decrease under minimisation, the classical half-width.')
-    ctx.run_rules([gamma_conv, gamma_fit, gamma_egsf, pn_terms, pn_solve, arctan, api])
+    ctx.run_rules([gamma_conv, gamma_fit, gamma_egsf, pn_terms, pn_solve, arctan, grids, api])
